@@ -100,6 +100,165 @@ def run_corpus(ctx: vf.Ctx, want, classify):
         ctx.count('corpus_cases')
 
 
+def followup_bad(c):
+    """does one more append on every qudit fail or leave inconsistent views? (judged on a copy)"""
+    import circ_common as cc
+    try:
+        return bool(cc.followup_appends(cc_copy_exact(c)))
+    except Exception:
+        return True
+
+
+def cc_copy_exact(c):
+    """an independent object in the same state (including any corrupted private view)"""
+    import copy
+    return copy.deepcopy(c)
+
+
+def fold_stress(ctx: vf.Ctx, want: set, classify, seed_salt=7919):
+    """Regions on circuits dense in 2-qudit gates: (a) grown by `surround` (valid), (b) random per-qudit cycle
+    intervals, (c) deliberately non-convex (two operations connected through a chain of >= 2 outside operations),
+    (d) staggered (different start cycles per qudit, so that straighten pushes gates back).
+    'order' oracles (C04): is_valid_region / check_region agree with an independent brute-force convexity test; a fold
+    that returns leaves the recursively unfolded per-qudit timelines (and, for small widths, the unitary) unchanged;
+    straighten alone keeps every timeline; a fold that raises leaves the circuit alone.
+    'views' oracles (C05): after every straighten / fold all views are consistent (Python recomputation and the Coq
+    functions of the grid), and so they are after one more append on every qudit, which must not fail internally.
+    Every case is also run through the extracted model of fold / check_region (coq/circuit/CFold.v)."""
+    import random
+    import numpy as np
+    import circ_common as cc
+    from bqskit.ir.region import CircuitRegion
+    rng = random.Random(ctx.seed * 1000003 + seed_salt + (1 if 'views' in want else 0))
+    n_reg = ctx.n(320, 6000)
+    two = [g for g, gt in cc.GATES.items() if gt.num_qudits == 2 and gt.radixes == (2, 2)]
+    one = [g for g, gt in cc.GATES.items() if gt.num_qudits == 1 and gt.radixes == (2,)]
+    lines, cases, vlines, vcases = [], [], [], []
+
+    def report(f, case, expected, observed):
+        cl = classify(f)
+        if cl is not None:
+            ctx.violation(cl[0], case, expected, observed, cl[1])
+
+    def view_checks(obj, call, case, pre, label):
+        bad = cc.check_views(obj)
+        if bad and all(b[0] == 'idle_cycle' for b in bad):
+            # known finding D6; the other views of this state are still judged
+            report(dict(kind='views', call=call, symptoms=['idle_cycle'], detail=bad[:3], pre=pre), case, 'no idle cycle', jsonable(bad[:3]))
+            ctx.count('fold_stress_idle_cycle_states')
+            bad = cc.check_views(obj, tolerate_idle=True)
+        if bad:
+            report(dict(kind='views', call=call, symptoms=[b[0] for b in bad], detail=bad[:3], pre=pre), case, 'consistent views', jsonable(bad[:3]))
+            return
+        try:
+            vlines.extend(['set ' + cc.dump(obj), 'views'])
+            vcases.append((cc.impl_views(obj), case, call))
+        except Exception as e:
+            report(dict(kind='views', call=call, symptoms=['accessor_raised'], detail=repr(e)[:200], pre=pre), case, 'consistent views', repr(e)[:200])
+            return
+        bad = cc.followup_appends(obj)
+        if bad:
+            report(dict(kind='views', call=call, symptoms=[b[0] for b in bad], detail=bad[:3], pre=pre), case, 'consistent views', jsonable(bad[:3]))
+
+    for t in range(n_reg):
+        n = rng.randint(4, 6)
+        c = cc.Circuit(n)
+        for _ in range(rng.randint(8, 26)):
+            if rng.random() < 0.8:
+                g = rng.choice(two)
+                loc = tuple(rng.sample(range(n), 2))
+            else:
+                g = rng.choice(one)
+                loc = (rng.randrange(n),)
+            c.append(cc.op_from_snap((0, g, loc, cc.rand_params(rng, cc.GATES[g].num_params), tuple(cc.GATES[g].radixes), ())))
+        pre = cc.snap(c)
+        kind = rng.choice(['surround', 'random', 'nonconvex', 'nonconvex', 'staggered', 'staggered'])
+        region = None
+        if kind == 'surround':
+            call = cc.gen_fold(rng, c, cc.existing_points(c), True)
+            region = call[1] if call[0] == 'fold' else None
+        elif kind == 'nonconvex':
+            region = cc.nonconvex_region(rng, pre)
+        elif kind == 'staggered':
+            region = cc.staggered_region(rng, pre)
+        if region is None:
+            kind = 'random'
+            qs = rng.sample(range(n), rng.randint(2, 3))
+            reg = []
+            for q in qs:
+                a = rng.randint(0, c.num_cycles - 1)
+                reg.append((q, (a, rng.randint(a, min(c.num_cycles - 1, a + rng.randint(0, 5))))))
+            region = tuple(sorted(reg))
+        ctx.count('fold_stress:' + kind)
+        verdict = cc.region_verdict(pre, region)
+        ctx.count('fold_stress_verdict:' + verdict)
+        call = ('fold', region)
+        scall = ('straighten', region)
+        case = dict(kind='circuit-history', pre=pre, call=call)
+        scase = dict(kind='circuit-history', pre=pre, call=scall)
+        ctx.case(('fold_stress', pre, region))
+        # (1) check_region's verdict
+        try:
+            accepted = c.is_valid_region(CircuitRegion({q: iv for q, iv in region}))
+        except Exception as e:
+            accepted = 'raised ' + type(e).__name__
+        if 'order' in want and accepted != (verdict == 'ok'):
+            ctx.violation(dict(call='check_region', symptom='verdict'), case, f'brute-force convexity test: {verdict}',
+                          f'is_valid_region: {accepted}', 'check_region disagrees with the independent convexity test')
+        # (2) straighten alone
+        d = c.copy()
+        sout = cc.apply_impl(d, scall)
+        if sout.kind == 'E' and sout.val.startswith('Internal'):
+            report(dict(kind='internal_error', call=scall, detail=sout.val, pre=pre), scase, 'ValueError or success', sout.val)
+        elif sout.kind != 'E':
+            if cc.snap(d) != pre:
+                ctx.count('fold_stress_straighten_moved')
+            if 'order' in want and cc.TL(cc.snap(d)) != cc.TL(pre):
+                ctx.violation(dict(call='straighten', symptom='order'), scase, jsonable(cc.TL(pre)), jsonable(cc.TL(cc.snap(d))), 'straighten changed a timeline')
+            if 'views' in want:
+                view_checks(d, scall, scase, pre, 'straighten')
+        # (3) fold
+        U = c.get_unitary() if ('order' in want and n <= 5) else None
+        out = cc.apply_impl(c, call)
+        post = cc.snap(c)
+        lines += ['set ' + cc.fmt(pre), 'check_region ' + cc.fmt(region), 'set ' + cc.fmt(pre), 'fold ' + cc.fmt(region)]
+        cases.append((case, '1' if accepted is True else '0', f'{out} | {cc.fmt(post)}'))
+        if out.kind == 'E':
+            if out.val.startswith('Internal'):
+                report(dict(kind='internal_error', call=call, detail=out.val, pre=pre), case, 'ValueError or success', out.val)
+            elif post != pre and 'order' in want:
+                ctx.violation(dict(call='fold', symptom='error-changed-circuit'), case, jsonable(pre), jsonable(post), 'fold raised but changed the circuit')
+        else:
+            ctx.count('fold_stress_folded')
+            if 'order' in want:
+                if verdict != 'ok':
+                    report(dict(kind='fold_accepted_invalid_region', call=call, detail=verdict), case, 'ValueError', jsonable(post))
+                if cc.UTL(pre) != cc.UTL(post):
+                    report(dict(kind='structure_only_changed_program', call=call), case, jsonable(cc.UTL(pre)), jsonable(cc.UTL(post)))
+                elif U is not None and not np.allclose(c.get_unitary(), U, atol=1e-9):
+                    ctx.violation(dict(call='fold', symptom='unitary-changed'), case, 'same unitary', 'different', 'fold changed the unitary')
+        if 'views' in want:
+            view_checks(c, call, case, pre, 'fold')
+    got = vf.run_model('circuit', lines + vlines)
+    bad = 0
+    for j, (case, acc, impl) in enumerate(cases):
+        if got[4 * j + 1] != acc or got[4 * j + 3] != impl:
+            bad += 1
+            ctx.mismatch('coq/circuit/CFold.v vs Circuit.fold/check_region (fold_stress)', jsonable(case),
+                         (got[4 * j + 1] + ' ; ' + got[4 * j + 3])[:2000], (acc + ' ; ' + impl)[:2000])
+    vbad = 0
+    for j, (iv, case, call) in enumerate(vcases):
+        names = cc.diff_views(cc.model_views(got[len(lines) + 2 * j + 1]), iv)
+        if names:
+            vbad += 1
+            report(dict(kind='coq_views', call=call, symptoms=names), case, 'the views derived by coq/circuit/CViews.v', names)
+    ctx.cov['fold_stress_regions'] = len(cases)
+    ctx.cov['fold_stress_model_disagreements'] = bad
+    if 'views' in want:
+        ctx.cov['fold_stress_view_states_compared_with_coq'] = len(vcases)
+        ctx.cov['fold_stress_view_states_disagreeing'] = vbad
+
+
 def coq_view_diff(c):
     """names of the views on which the implementation differs from the functions of its own grid defined in
     coq/circuit/CViews.v (evaluated by the extracted model)"""
@@ -135,11 +294,14 @@ def replay_case(ctx: vf.Ctx, data, want, classify, quiet=False):
         f = dict(kind='internal_error', step=0, call=call, detail=out.val, pre=pre)
     elif iter_exc is not None and 'views' not in want:
         f = dict(kind='iteration_raised', step=0, call=call, detail=iter_exc, pre=pre)
-    elif 'views' in want and cc.check_views(c):
-        bad = cc.check_views(c)
+    elif 'views' in want and cc.check_views(c) and (cc.check_views(c, tolerate_idle=True) or not followup_bad(c)):
+        bad = cc.check_views(c, tolerate_idle=True) or cc.check_views(c)   # anything beyond the known idle cycle first
         f = dict(kind='views', step=0, call=call, symptoms=[b[0] for b in bad], detail=bad[:3], pre=pre)
     elif 'views' in want and coq_view_diff(c):
         f = dict(kind='coq_views', step=0, call=call, symptoms=coq_view_diff(c), pre=pre)
+    elif 'views' in want and followup_bad(c):
+        bad = cc.followup_appends(c)
+        f = dict(kind='views', step=0, call=call, symptoms=[b[0] for b in bad], detail=bad[:3], pre=pre)
     elif 'order' in want and out.kind != 'E':
         try:
             if call[0] == 'fold' and cc.region_verdict(pre, call[1]) != 'ok':
